@@ -155,6 +155,30 @@ func checkC15(p *Prog, r *Report) {
 		r.OK(kp("REACH", "handlers#no-bank-mutator"), "no coin-moving bank function or interface method is reachable from the 14 handlers, their stateless methods, or the aol/did/pnft block hooks (definite edges through module code and the x/nft keeper)", "x/*",
 			fmt.Sprintf("%d entry functions, %d functions reachable, %d interface invocations inspected", len(entries), len(reach.Order), len(reach.Invokes)))
 	}
+	// D2b atomicity: everything a handler changes is in the transaction's store branch. A write to memory that outlives the call (a
+	// package variable, a field of the long-lived message server / keeper) is not rolled back when a later message of the same
+	// transaction fails — the failed transaction has then had an effect on what later handlers compute and store.
+	{
+		var scopeFns []*ssa.Function
+		for _, f := range reach.Order {
+			if InModule(f) && f.Blocks != nil {
+				scopeFns = append(scopeFns, f)
+			}
+		}
+		nW := 0
+		for _, a := range LAccesses(p, scopeFns) {
+			if !a.Write || isInitFunc(a.Fn) {
+				continue
+			}
+			nW++
+			r.Fail(kp("STATE", "handler-writes-process-memory:"+a.Loc+"@"+FuncName(a.Fn)), "a failed transaction leaves nothing behind: handlers change state only through the transaction's store branch", p.Pos(a.Instr.Pos()),
+				fmt.Sprintf("%s is written on a handler's call tree (%s; reached via %s): the write is not part of the store branch that is discarded when a message of the transaction fails, so a failed transaction changes what later messages see and store", a.Loc, describeAccess(p, a), reach.Chain(a.Fn)))
+		}
+		if nW == 0 {
+			r.OK(kp("STATE", "handler-writes-process-memory#none"), "a failed transaction leaves nothing behind: handlers change state only through the transaction's store branch", "x/*",
+				fmt.Sprintf("%d module functions on the handlers' call trees, no write to a package-level variable or long-lived field", len(scopeFns)))
+		}
+	}
 	if r.Tier == "thorough" {
 		vtaCrossCheck(p, r, kp("REACH", "vta-cross-check"), entries, func(f *ssa.Function) (string, bool) {
 			if pkgPathOf(f) == bankKeeperPath && f.Signature.Recv() != nil && isCoinMover(f.Name()) {
@@ -385,4 +409,39 @@ func checkC15(p *Prog, r *Report) {
 			fmt.Sprintf("the ante decorator built by %s writes %s: ante-handler writes are committed before the messages run and are kept when a later message fails, so a failed transaction leaves custom-module state behind", ctor, hit))
 	}
 	r.Count("module-defined-ante-decorators", nCustomDeco)
+	// every module type that can sit in an ante or post-handler chain (implements sdk.AnteDecorator / sdk.PostDecorator), however it
+	// is installed: post handlers run inside the transaction after its messages, for every transaction
+	nDecoTypes := 0
+	for _, ifn := range []string{"AnteDecorator", "PostDecorator"} {
+		iface := p.Iface(SDK+"/types", ifn)
+		if iface == nil {
+			r.Undecided(kp("REACH", "decorator-types#"+ifn), "sdk."+ifn+" resolves", SDK+"/types", "interface not found")
+			continue
+		}
+		for _, n := range p.ImplementersOf(iface) {
+			nDecoTypes++
+			var roots []*ssa.Function
+			for _, fn := range p.ModFuncs {
+				if rv := fn.Signature.Recv(); rv != nil && strings.TrimPrefix(rv.Type().String(), "*") == n.String() {
+					roots = append(roots, fn)
+				}
+			}
+			reach := p.ReachFrom(roots, func(f *ssa.Function) bool { return InModule(f) || pkgPathOf(f) == nftKeeperPath })
+			mover := ""
+			for _, f := range reach.Order {
+				if pkgPathOf(f) == bankKeeperPath && f.Signature.Recv() != nil && isCoinMover(f.Name()) {
+					mover = FuncName(f) + " via " + reach.Chain(f)
+				}
+			}
+			for _, iv := range reach.Invokes {
+				if isCoinMover(iv.Method) && len(bankCapable(iv.Instr.Common().Value.Type())) > 0 {
+					mover = "invoke " + iv.Iface + "." + iv.Method + " in " + FuncName(iv.In)
+				}
+			}
+			r.Check(mover == "", kp("REACH", ifn+":"+shortPkg(n.String())+"#moves-no-coins"), "ante and post-handler decorators defined in the module move no coins (only the SDK's DeductFeeDecorator does: the declared fee)", p.Pos(n.Obj().Pos()),
+				fmt.Sprintf("%d functions reachable from the methods of %s, no coin-moving bank function", len(reach.Order), shortPkg(n.String())),
+				fmt.Sprintf("%s (an sdk.%s) moves coins (%s): once it is in the chain, a transaction that contains only custom-module messages changes balances beyond its fee", shortPkg(n.String()), ifn, mover))
+		}
+	}
+	r.Count("module-types-implementing-ante/post-decorator", nDecoTypes)
 }
